@@ -112,6 +112,16 @@ func e2eHarness(rc *RunCtx) {
 		if tp.Intn("cfg", 4) != 0 {
 			env.httpRespLimit = limits[tp.Intn("cfg", len(limits))]
 		}
+		if k := tp.Intn("hugelimit", 6); k == 1 || k == 2 {
+			// limits that no message reaches are limits too: 4 GiB and beyond must not wrap into small ones
+			huge := []uint{1 << 32, 1<<32 + 100, 8 << 30, 1 << 40, 1<<63 - 1, 1<<32 + 1<<20}[tp.Intn("hugelimit", 6)]
+			if k == 1 {
+				env.httpRespLimit = huge
+			} else {
+				env.httpReqLimit = huge
+			}
+			rc.Fault("http-size-limit-of-4GiB-or-more")
+		}
 		rc.Sample["http_request_limit"], rc.Sample["http_response_limit"] = env.httpReqLimit, env.httpRespLimit
 	}
 	// middleware lists
@@ -325,6 +335,20 @@ func (g *e2eGen) headers(p *callPlan) {
 	if len(p.reqHdr) > 0 && tp.Intn("bighdr", 12) == 11 {
 		// one header value larger than any read buffer on the way
 		p.reqHdr[sortedKeys(p.reqHdr)[0]] = strings.Repeat(genString(tp, "hdr", 6)+"v", 1000+tp.Intn("bighdr", 3000))
+	}
+	if g.rc.Prop == "C09" && len(p.respHdr) > 0 && tp.Intn("onward", 4) == 1 {
+		p.onward = true
+		g.rc.Fault("handler-makes-an-onward-call-with-its-context")
+	}
+	if k := tp.Intn("rawbytes", 6); g.rc.Prop == "C09" && (k == 1 || k == 2) {
+		// values are byte strings: nothing on the way may "repair" bytes that are not UTF-8
+		raw := []string{"\xff\xfe", "caf\xe9", "\xe6\x97", "ok\xc3", "\x80", "a\xf0\x9f\x98z"}
+		p.reqHdr["raw"+genString(tp, "hdr", 2)] = raw[tp.Intn("rawbytes", len(raw))]
+		p.respHdr["rawr"] = raw[tp.Intn("rawbytes", len(raw))]
+		if k == 2 {
+			p.cid = "cid-" + raw[tp.Intn("rawbytes", len(raw))]
+		}
+		g.rc.Fault("header-values-that-are-not-utf8")
 	}
 	if len(p.respHdr) > 0 && tp.Intn("hdr", 3) == 0 {
 		// the caller's context already carries a response header of that name (a reused context, an onward call)
@@ -665,6 +689,13 @@ func (g *e2eGen) sizePlan(p *callPlan) {
 	switch env.kind {
 	case "http":
 		reqLimit, respLimit = int(env.httpReqLimit), int(env.httpRespLimit)
+		// (nothing is shaped towards a limit of gigabytes)
+		if reqLimit > 1<<30 {
+			reqLimit = 0
+		}
+		if respLimit > 1<<30 {
+			respLimit = 0
+		}
 	case "nats":
 		if tp.Intn("size", 6) != 0 {
 			return // megabyte payloads are expensive: most NATS runs stay small
@@ -840,6 +871,12 @@ func e2eCheck(rc *RunCtx, env *e2eEnv, plans []*callPlan, cli, prov, srv, added 
 			rc.Violate("C03", "handler-invocation-count", key, fmt.Sprintf("%s: handler ran %d times (caller got ret=%v err=%v)", where, p.handlerRuns, fmtArgs([]any{p.gotRet}), p.gotErr))
 			continue
 		}
+		if p.connLost {
+			if p.gotErr == nil {
+				rc.Violate("C03", "result-without-a-response", key, fmt.Sprintf("%s: the connection was lost before any byte of the response arrived, yet the call returned %v without an error", where, fmtArgs([]any{p.gotRet})))
+			}
+			continue
+		}
 		wantArgs := p.args
 		if p.method == "basePing" {
 			// rewriting middleware on the way in, outermost first
@@ -1009,6 +1046,16 @@ func e2eCheck(rc *RunCtx, env *e2eEnv, plans []*callPlan, cli, prov, srv, added 
 			for k, v := range p.respHdr {
 				if got, ok := p.gotRespHdr[k]; !ok || got != v {
 					rc.Violate("C09", "response-header-lost", key, fmt.Sprintf("%s: handler set %q=%q, caller has %q (present=%v)", where, k, v, got, ok))
+				}
+			}
+			if p.onward && p.handlerRuns > 0 {
+				switch {
+				case p.onwardErr != nil || p.onwardRet != 42:
+					rc.Violate("C09", "onward-call-with-the-handlers-context-failed", key, fmt.Sprintf("%s: add(40,2) to a downstream service with the context the handler was given: %d, %v", where, p.onwardRet, p.onwardErr))
+				case p.downCid != p.cid:
+					rc.Violate("C09", "correlation-id-differs", key, fmt.Sprintf("%s: the downstream service saw correlation id %q, the caller set %q", where, p.downCid, p.cid))
+				case p.downOpid == "" || p.downOpid == p.opid || p.downOpid == p.seenOpid:
+					rc.Violate("C09", "handler-opid-not-fresh", key, fmt.Sprintf("%s: request op id %s, handler context %s, downstream handler context %q", where, p.opid, p.seenOpid, p.downOpid))
 				}
 			}
 			if rep != nil {
